@@ -166,36 +166,36 @@ def h_optim(H):
 # ----------------------------------------------------------------------------- freduce / fexpand / fscale
 @harness(PROPERTY, "freduce_fexpand", functions=["ibldsp.fourier:freduce", "ibldsp.fourier:fexpand"], clause="half-spectrum reduction and expansion are mutual inverses on spectra of real signals, every parity and axis")
 def h_reduce(H):
-    for axis in (None, 0):
+    for axis in (None, 0, -1):
         S = H.session(f"reduce.axis{axis}")
 
         def body(it, axis=axis):
             ns, other = z3.Ints("ns other")
             it.ctx.assume(z3.And(ns >= 1, other >= 1))
-            shape = (other, ns) if axis is None else (ns, other)
+            shape = (other, ns) if axis in (None, -1) else (ns, other)
             X = models._fresh_complex("X", np.dtype("complex128"), shape)
             CS = A.sort_of(np.dtype("complex128"))
             cj = z3.Function("c_conj!uf", CS, CS)
             a, b = z3.Ints("a b")
             # Hermitian symmetry of the spectrum of a real signal: X[n-k] = conj(X[k])
-            herm = z3.ForAll([a, b], z3.Implies(z3.And(a >= 0, a < other, b >= 1, b < ns), (X.uf(a, ns - b) if axis is None else X.uf(ns - b, a)) == cj(X.uf(a, b) if axis is None else X.uf(b, a))))
+            herm = z3.ForAll([a, b], z3.Implies(z3.And(a >= 0, a < other, b >= 1, b < ns), (X.uf(a, ns - b) if axis in (None, -1) else X.uf(ns - b, a)) == cj(X.uf(a, b) if axis in (None, -1) else X.uf(b, a))))
             it.ctx.assume(herm)
             red = run_function(it, F.freduce, [X], {"axis": axis})
             tag = f"axis{axis}"
             m = ns / 2 + 1
-            it.ctx.oblige(f"freduce.length.{tag}", A.T(red.shape[-1 if axis is None else 0]) == m, "post", "positive frequencies only: ns//2 + 1 bins")
+            it.ctx.oblige(f"freduce.length.{tag}", A.T(red.shape[-1 if axis in (None, -1) else 0]) == m, "post", "positive frequencies only: ns//2 + 1 bins")
             back = run_function(it, F.fexpand, [red], {"ns": SV(ns), "axis": axis})
-            it.ctx.oblige(f"fexpand.length.{tag}", A.T(back.shape[-1 if axis is None else 0]) == ns, "post")
+            it.ctx.oblige(f"fexpand.length.{tag}", A.T(back.shape[-1 if axis in (None, -1) else 0]) == ns, "post")
             r0, k0 = z3.Int(fresh_name("r0")), z3.Int(fresh_name("k0"))
             it.ctx.assume(z3.And(r0 >= 0, r0 < other, k0 >= 0, k0 < ns))
             it.ctx.instantiate(herm, r0, ns - k0)
-            idx = (r0, k0) if axis is None else (k0, r0)
+            idx = (r0, k0) if axis in (None, -1) else (k0, r0)
             it.ctx.oblige(f"fexpand_freduce.identity.{tag}", back.read(idx) == X.read(idx), "post", "fexpand(freduce(X), ns) == X on Hermitian spectra (arbitrary bin)", assume=False)
             red2 = run_function(it, F.freduce, [back], {"axis": axis})
             k1 = z3.Int(fresh_name("k1"))
             it.ctx.assume(z3.And(k1 >= 0, k1 < m))
-            idx1 = (r0, k1) if axis is None else (k1, r0)
-            it.ctx.oblige(f"freduce_fexpand.identity.{tag}", z3.And(A.T(red2.shape[-1 if axis is None else 0]) == m, red2.read(idx1) == red.read(idx1)), "post", assume=False)
+            idx1 = (r0, k1) if axis in (None, -1) else (k1, r0)
+            it.ctx.oblige(f"freduce_fexpand.identity.{tag}", z3.And(A.T(red2.shape[-1 if axis in (None, -1) else 0]) == m, red2.read(idx1) == red.read(idx1)), "post", assume=False)
         S.explore(body)
 
 
@@ -543,6 +543,15 @@ def b_native(B):
         X = np.fft.fft(x)
         if not np.allclose(F.fexpand(F.freduce(X), n), X) or F.freduce(X).size != n // 2 + 1:
             bad.append(("freduce/fexpand", n))
+    # every axis of 2-D / 3-D arrays, counted from either end
+    for shp in ((5, 8), (6, 9), (3, 4, 7), (2, 6, 5)):
+        xx = rng.standard_normal(shp)
+        for ax in range(-len(shp), len(shp)):
+            XX = np.fft.fft(xx, axis=ax)
+            red = F.freduce(XX, axis=ax)
+            want = np.fft.rfft(xx, axis=ax)
+            if red.shape != want.shape or not np.allclose(red, want) or not np.allclose(F.fexpand(red, shp[ax], axis=ax), XX):
+                bad.append(("freduce / fexpand along an axis of a multi-dimensional array", shp, ax, red.shape, want.shape))
     x2 = rng.standard_normal((6, 9))
     for ax in (0, 1):
         if not np.allclose(F.lp(x2, 1.0, [0.1, 0.2], axis=ax), np.apply_along_axis(lambda v: F.lp(v, 1.0, [0.1, 0.2]), ax, x2)):
